@@ -9,5 +9,7 @@ CONSTANTS
   MaxBurst = 2
   MaxHold = 0
   MaxSick = 1
+  MaxReset = 1
+  AllowReset = TRUE
   Depth = 10
 CHECK_DEADLOCK FALSE
